@@ -69,7 +69,9 @@ WInit ==
       rc |-> <<>>, hs |-> <<>>, nextH |-> 1,   \* handle instance -> strong count / system         [auto_despawn.rs]
       gcChan |-> <<>>,
       trk |-> {}, despChan |-> <<>>,                                              \* [reaction_triggers_impl.rs:DespawnTracker]
-      tracked |-> <<>>, cursor |-> [ c \in 1..2 |-> 0 ], remLog |-> [ c \in 1..2 |-> <<>> ],
+      tracked |-> <<>>, cursor |-> [ c \in 1..2 |-> 0 ],
+      remLog |-> [ c \in 1..2 |-> <<>> ],      \* retained removal events [e, age]; age 1 = survived one clear_trackers
+      remBase |-> [ c \in 1..2 |-> 0 ],        \* number of events already dropped (absolute index of remLog[c][1] minus 1)
       comp |-> [ k \in Ents \X (1..2) |-> 0 ], res |-> [ r \in 1..2 |-> 0 ],
       data |-> <<>>,                \* d -> [kind, ty, e, p, count, live, taken]
       ev |-> [reacting |-> FALSE, cur |-> 0, prepared |-> <<>>],                  \* [event_readers.rs]
@@ -163,7 +165,7 @@ KillEntW(x, e) ==
     ELSE LET gone == SelectSeq(x.reg, LAMBDA y : y.kd \in EntKinds /\ y.e = e)
              x1 == [x EXCEPT !.aliveE = @ \ {e},
                              !.reg = SelectSeq(@, LAMBDA y : ~(y.kd \in EntKinds /\ y.e = e)),
-                             !.remLog = [ c \in 1..2 |-> IF x.comp[<<e, c>>] # 0 THEN Append(@[c], e) ELSE @[c] ],
+                             !.remLog = [ c \in 1..2 |-> IF x.comp[<<e, c>>] # 0 THEN Append(@[c], [e |-> e, age |-> 0]) ELSE @[c] ],
                              !.comp = [ k \in DOMAIN @ |-> IF k[1] = e THEN 0 ELSE @[k] ],
                              !.despChan = IF e \in x.trk THEN Append(@, e) ELSE @,
                              !.trk = @ \ {e}, !.elocal[e] = 0, !.hasER = @ \ {e}]
@@ -256,14 +258,15 @@ RxCmd(kind, s, src, rk, rt, d, h) == [Cmd0 EXCEPT !.c = "rx", !.kind = kind, !.s
 PollW(x) ==
     LET \* removals: every tracked component, new events since this reader's cursor
         remstep(acc, c) ==
-            LET fresh == SubSeq(acc.w.remLog[c], acc.w.cursor[c] + 1, Len(acc.w.remLog[c]))
+            LET from == IF acc.w.cursor[c] > acc.w.remBase[c] THEN acc.w.cursor[c] - acc.w.remBase[c] ELSE 0
+                fresh == MapSeq(SubSeq(acc.w.remLog[c], from + 1, Len(acc.w.remLog[c])), LAMBDA ev : ev.e)
                 one(a2, ent) ==
                     LET ls == ListenersW(a2.w, "rem", c, ent)
                     IN [w |-> a2.w,
                         out |-> Append(a2.out, [t |-> "sched", trig |-> "rem", ty |-> c, ent |-> ent, data |-> 0, reactors |-> MapSeq(ls, LAMBDA y : y.s)]),
                         q |-> a2.q \o MapSeq(ls, LAMBDA y : RxCmd("ereact", y.s, ent, "rem", c, 0, 0))]
                 r == FoldSeq(one, acc, fresh)
-            IN [r EXCEPT !.w = [r.w EXCEPT !.cursor[c] = Len(acc.w.remLog[c])]]
+            IN [r EXCEPT !.w = [r.w EXCEPT !.cursor[c] = acc.w.remBase[c] + Len(acc.w.remLog[c])]]
         a1 == FoldSeq(remstep, [w |-> x, out |-> <<>>, q |-> <<>>], IF "poll_skip_rem" \in Mutants THEN <<>> ELSE x.tracked)
         \* despawns: drain the channel
         despstep(acc, ent) ==
@@ -335,7 +338,7 @@ OpEffect(x, op, ret) ==
       [] n = "trig" -> DispatchW(x, "mut", op[3], op[2], 0)
       [] n = "rm" ->
             IF ret = 1 /\ op[2] \in x.aliveE /\ x.comp[<<op[2], op[3]>>] # 0
-            THEN [w |-> [x EXCEPT !.comp[<<op[2], op[3]>>] = 0, !.remLog[op[3]] = Append(@, op[2])], out |-> <<>>, q |-> <<>>]
+            THEN [w |-> [x EXCEPT !.comp[<<op[2], op[3]>>] = 0, !.remLog[op[3]] = Append(@, [e |-> op[2], age |-> 0])], out |-> <<>>, q |-> <<>>]
             ELSE [w |-> x, out |-> <<>>, q |-> <<>>]
       [] n = "desp" -> [w |-> IF ret = 1 THEN KillEntW(x, op[2]) ELSE x, out |-> <<>>, q |-> <<>>]
       [] n = "despsys" ->
@@ -584,7 +587,7 @@ RBodyEnd(x, fr, err) ==
 ----------------------------------------------------------------------------
 (* driver *)
 
-DFrame(ops) == [f |-> "d", ops |-> ops, issued |-> <<>>, pc |-> "issue"]
+DFrame(ops) == [f |-> "d", ops |-> ops, issued |-> <<>>, pc |-> "issue", clear |-> FALSE]
 
 Quiesce(x) ==
     LET kinds == <<"bc", "res", "anyev", "ins", "mut", "rem", "eins", "emut", "erem", "eev", "desp">>
@@ -608,6 +611,11 @@ Quiesce(x) ==
         alive_sys |-> SeqOfSet(x.alive), alive_ent |-> SeqOfSet(x.aliveE),
         comps |-> comps, res |-> <<x.res[1], x.res[2]>>, elocal |-> SeqOfSet({ e \in x.aliveE : x.elocal[e] # 0 }),
         tables |-> tables]
+
+(* World::clear_trackers (end of App::update): removal events that survived one clear are dropped, the others age *)
+ClearW(x) ==
+    [x EXCEPT !.remLog = [ c \in 1..2 |-> MapSeq(SelectSeq(@[c], LAMBDA ev : ev.age = 0), LAMBDA ev : [ev EXCEPT !.age = 1]) ],
+              !.remBase = [ c \in 1..2 |-> @[c] + Len(SelectSeq(x.remLog[c], LAMBDA ev : ev.age = 1)) ]]
 
 DrvRec(x, kind) == [t |-> "drv", step |-> x.step, kind |-> kind]
 
@@ -669,7 +677,7 @@ StepD(fr) ==
             \/ /\ Len(fr.issued) > 0
                /\ LET items == [ i \in DOMAIN fr.issued |-> [Cmd0 EXCEPT !.c = "op", !.r = -w.step, !.i = i, !.op = fr.issued[i].op, !.ret = fr.issued[i].ret] ]
                   IN Emit([w |-> PushF(SetTopF(w, [fr EXCEPT !.pc = "wait"]), QFrame(items, <<>>)), out |-> <<>>])
-      [] fr.pc = "wait" -> Emit([w |-> PopF(w), out |-> << Quiesce(w) >>])
+      [] fr.pc = "wait" -> LET x == IF fr.clear THEN ClearW(w) ELSE w IN Emit([w |-> PopF(x), out |-> << Quiesce(x) >>])
 
 (* a driver step starts when nothing is running *)
 StepIdle ==
@@ -680,7 +688,7 @@ StepIdle ==
             IN CASE st.kind = "ops" -> Emit([w |-> PushF(x, DFrame(st.ops)), out |-> << DrvRec(x, "ops") >>])
                  [] st.kind = "gc" -> LET g == GcW(x) IN Emit([w |-> PushF(g.w, [DFrame(<<>>) EXCEPT !.pc = "wait"]), out |-> << DrvRec(x, "gc") >> \o g.out])
                  [] st.kind = "poll" -> LET p == PollOnly(PushF(x, [DFrame(<<>>) EXCEPT !.pc = "wait"]), << DrvRec(x, "poll") >>) IN Emit(p)
-                 [] st.kind = "clear" -> LET p == GcPoll(PushF(x, [DFrame(<<>>) EXCEPT !.pc = "wait"]), << DrvRec(x, "clear") >>) IN Emit(p)
+                 [] st.kind = "clear" -> LET p == GcPoll(PushF(x, [DFrame(<<>>) EXCEPT !.pc = "wait", !.clear = TRUE]), << DrvRec(x, "clear") >>) IN Emit(p)
     ELSE /\ w.step < MaxSteps
          /\ LET x == [w EXCEPT !.step = @ + 1]
             IN IF w.step = 0 /\ Len(InitOps) > 0
@@ -688,7 +696,7 @@ StepIdle ==
                ELSE \/ "ops" \in StepKinds /\ w.budget > 0 /\ Emit([w |-> PushF(x, [DFrame(<<>>) EXCEPT !.pc = "free"]), out |-> << DrvRec(x, "ops") >>])
                     \/ "gc" \in StepKinds /\ LET g == GcW(x) IN Emit([w |-> PushF(g.w, [DFrame(<<>>) EXCEPT !.pc = "wait"]), out |-> << DrvRec(x, "gc") >> \o g.out])
                     \/ "poll" \in StepKinds /\ Emit(PollOnly(PushF(x, [DFrame(<<>>) EXCEPT !.pc = "wait"]), << DrvRec(x, "poll") >>))
-                    \/ "clear" \in StepKinds /\ Emit(GcPoll(PushF(x, [DFrame(<<>>) EXCEPT !.pc = "wait"]), << DrvRec(x, "clear") >>))
+                    \/ "clear" \in StepKinds /\ Emit(GcPoll(PushF(x, [DFrame(<<>>) EXCEPT !.pc = "wait", !.clear = TRUE]), << DrvRec(x, "clear") >>))
 
 CInit == w = WInit /\ out = <<CfgRec>>
 
